@@ -13,6 +13,9 @@
 // Every tree is also dumped in a tagged neutral form together with the text of the four standard
 // option sets to c04.dump.<shard>.tsv; vf/oracles/c04.py compares them with CPython json.loads.
 // Deep-copy monitor: copies are compared, address-walked for aliasing, mutated at a random path.
+// Assignment monitor: every tree is copy- and move-assigned onto pre-loaded destinations of every kind
+// (scalars, shorter/longer lists, dicts with disjoint/overlapping/superset/subset/same key sets, a deep
+// tree, a polluted same-shape tree, a copy of the previous tree); dst must equal the source afterwards.
 //
 // Violation keys: <check>:<shape of the smallest failing subtree>:<default|strict>  (no numbers).
 #include <math.h>
@@ -431,6 +434,183 @@ static void copy_monitor(const Node& n, const JSON& v, vf::Rng& r, const string&
   C->cls("copy:" + kind);
 }
 
+static Node chain_fwd(int depth) {
+  Node cur = mk_int(7);
+  for (int i = 0; i < depth; i++) {
+    Node p = (i & 1) ? mk_dict() : mk_list();
+    if (i & 1) dput(p, string(1, (char)('a' + i % 26)), std::move(cur));
+    else p.kids.push_back(std::move(cur));
+    cur = std::move(p);
+  }
+  return cur;
+}
+
+// ------------------------------------------------------------------------------------------------
+// history-aware assignment monitor: "copies are deep and compare equal to their source" must also
+// hold when the destination of operator= already holds a value.  Every tree S is copy-assigned and
+// move-assigned onto pre-loaded destinations of every kind.  Self-assignment is left out: the class
+// does not document it as supported.  (Old children of the destination are freed by the assignment,
+// so their addresses may legitimately be reused; exactly-once freeing is ASan/LSan's job.)
+
+static string unique_key(const Node& d, const Node* other, string k) {
+  auto has = [](const Node* n, const string& key) {
+    if (!n || n->k != Node::D) return false;
+    for (auto& x : n->keys)
+      if (x == key) return true;
+    return false;
+  };
+  while (has(&d, k) || has(other, k)) k += "_";
+  return k;
+}
+
+// same shape as n, but every scalar changed, every list one element longer, every dict one key richer
+static Node pollute(const Node& n) {
+  switch (n.k) {
+    case Node::N: return mk_bool(true);
+    case Node::B: return mk_bool(!n.b);
+    case Node::I: return mk_int((int64_t)((uint64_t)n.i + 1));
+    case Node::F: return mk_str("was-float");
+    case Node::S: return mk_str(n.s + "x");
+    case Node::L: {
+      Node r = mk_list();
+      for (auto& k : n.kids) r.kids.push_back(pollute(k));
+      r.kids.push_back(mk_str("stale-item"));
+      return r;
+    }
+    default: {
+      Node r = mk_dict();
+      for (size_t i = 0; i < n.kids.size(); i++) dput(r, n.keys[i], pollute(n.kids[i]));
+      dput(r, unique_key(r, nullptr, "stale-key"), mk_int(-1));
+      return r;
+    }
+  }
+}
+
+struct Dest {
+  string kind;
+  Node node;
+};
+
+static vector<Dest> destinations(const Node& n) {
+  vector<Dest> d;
+  d.push_back({"null", mk_null()});
+  d.push_back({"bool", mk_bool(true)});
+  d.push_back({"int", mk_int(-42)});
+  d.push_back({"float", mk_float(2.5)});
+  d.push_back({"string", mk_str("old string value, long enough to be heap allocated")});
+  d.push_back({"list-empty", mk_list()});
+  size_t sz = n.k == Node::L ? n.kids.size() : 2;
+  {
+    Node shorter = mk_list(), longer = mk_list();
+    for (size_t i = 0; i + 1 < sz; i++) shorter.kids.push_back(mk_int((int64_t)i));
+    if (sz == 0 || shorter.kids.empty()) shorter.kids.push_back(mk_str("only"));
+    for (size_t i = 0; i < sz + 2; i++) longer.kids.push_back(i & 1 ? mk_str("old") : mk_list());
+    d.push_back({n.k == Node::L && sz > 1 ? "list-shorter" : "list-short", shorter});
+    d.push_back({"list-longer", longer});
+  }
+  d.push_back({"dict-empty", mk_dict()});
+  {
+    Node disjoint = mk_dict();
+    for (int i = 0; i < 3; i++) dput(disjoint, unique_key(disjoint, &n, fmt("old-key-%d", i)), i == 1 ? mk_list() : mk_int(i));
+    d.push_back({"dict-disjoint-keys", disjoint});
+    if (n.k == Node::D && !n.keys.empty()) {
+      Node overlap = mk_dict(), superset = mk_dict(), subset = mk_dict(), same = mk_dict();
+      for (size_t i = 0; i < n.keys.size(); i++) {
+        if (i < (n.keys.size() + 1) / 2) {
+          dput(overlap, n.keys[i], mk_str("old"));
+          dput(subset, n.keys[i], mk_int(7));
+        }
+        dput(superset, n.keys[i], i & 1 ? mk_null() : mk_dict());
+        dput(same, n.keys[i], mk_float(0.25));
+      }
+      dput(overlap, unique_key(overlap, &n, "extra-a"), mk_int(1));
+      dput(overlap, unique_key(overlap, &n, "extra-b"), mk_list());
+      dput(superset, unique_key(superset, &n, "extra-a"), mk_int(1));
+      dput(superset, unique_key(superset, &n, ""), mk_str("empty-or-extra key"));
+      d.push_back({"dict-overlapping-keys", overlap});
+      d.push_back({"dict-superset-keys", superset});
+      d.push_back({"dict-subset-keys", subset});
+      d.push_back({"dict-same-keys", same});
+    }
+  }
+  d.push_back({"deep-tree", chain_fwd(30)});
+  if (n.k == Node::L || n.k == Node::D) d.push_back({"polluted-same-shape", pollute(n)});
+  return d;
+}
+
+static JSON g_prev;
+static bool g_have_prev = false;
+
+static void check_assigned(const char* op, const string& kind, const Node& n, const JSON& v, JSON& dst, const string& sorted_v,
+    vf::Rng& r, const string& desc, bool mutate_too) {
+  string pre = string(op) + ":onto-" + kind + ":";
+  string where;
+  string w = walk_cmp(n, dst, where, "$");
+  if (!w.empty()) C->violation(pre + "differs", string("after ") + op + " the destination does not hold the source's value (" + w + "): " + where, desc);
+  string sd = dst.serialize(JSON::SORT_DICT_KEYS);
+  if (sd != sorted_v) {
+    size_t k = 0;
+    while (k < sd.size() && k < sorted_v.size() && sd[k] == sorted_v[k]) k++;
+    C->violation(pre + "differs", fmt("serialize(dst, SORT_DICT_KEYS) != serialize(src, SORT_DICT_KEYS); first difference at byte %zu: dst ...", k) + sd.substr(k > 10 ? k - 10 : 0, 60) + " src ..." + sorted_v.substr(k > 10 ? k - 10 : 0, 60), desc);
+  }
+  if ((dst.is_list() || dst.is_dict()) && (v.is_list() || v.is_dict()) && dst.size() != v.size())
+    C->violation(pre + "differs", fmt("size() %zu after assignment, source has %zu", dst.size(), v.size()), desc);
+  if (!(dst == v) || !(v == dst) || (dst != v) || (v != dst)) C->violation(pre + "not-equal", "dst == src is false (or != true) after the assignment", desc);
+  if (aliases(v, dst)) C->violation(pre + "aliases-source", "the destination shares a child object or string buffer with the source", desc);
+  if (mutate_too) {
+    string m = mutate(dst, r);
+    if (dst == v || v == dst) C->violation(pre + "mutated-still-equal", "after mutating the destination at " + m + " it still compares equal to the source", desc);
+    if (v.serialize(JSON::SORT_DICT_KEYS) != sorted_v || !walk_cmp(n, v, where, "$").empty())
+      C->violation(pre + "source-changed", "mutating the assigned destination at " + m + " changed the source", desc);
+  }
+}
+
+static void assign_monitor(const Node& n, const JSON& v, vf::Rng& r, const string& desc) {
+  string sorted_v = v.serialize(JSON::SORT_DICT_KEYS);
+  const char* sk = n.k == Node::L ? "list" : n.k == Node::D ? "dict" : "scalar";
+  vector<Dest> dests = destinations(n);
+  for (auto& d : dests) {
+    string dtag;
+    tagged(d.node, dtag);
+    string dd = "destination pre-loaded with " + (dtag.size() > 300 ? dtag.substr(0, 300) + "..." : dtag) + "; source " + desc;
+    C->evaluations += 2;
+    C->crumb_s("copy-assign onto " + d.kind + " " + dd.substr(0, 3000));
+    {
+      JSON dst = build(d.node);
+      dst = v;
+      check_assigned("copy-assign", d.kind, n, v, dst, sorted_v, r, dd, true);
+    }
+    C->crumb_s("move-assign onto " + d.kind + " " + dd.substr(0, 3000));
+    {
+      JSON tmp(v);
+      JSON dst = build(d.node);
+      dst = std::move(tmp);
+      check_assigned("move-assign", d.kind, n, v, dst, sorted_v, r, dd, false);
+    }
+    C->cls(string("assign:onto-") + d.kind + ":" + sk);
+  }
+  // onto a previous copy of a different tree, then remember a copy of this one
+  if (g_have_prev) {
+    C->evaluations += 2;
+    string dd = "destination is a copy of the previously processed tree; source " + desc;
+    C->crumb_s("copy-assign onto previous tree " + dd.substr(0, 3000));
+    {
+      JSON dst(g_prev);
+      dst = v;
+      check_assigned("copy-assign", "previous-tree", n, v, dst, sorted_v, r, dd, true);
+    }
+    {
+      JSON tmp(v);
+      g_prev = std::move(tmp);  // move-assign onto the previous tree itself
+      check_assigned("move-assign", "previous-tree", n, v, g_prev, sorted_v, r, dd, false);
+    }
+    C->cls(string("assign:onto-previous-tree:") + sk);
+  } else {
+    g_prev = v;
+    g_have_prev = true;
+  }
+}
+
 // ------------------------------------------------------------------------------------------------
 // generators
 
@@ -677,6 +857,7 @@ static void process(uint64_t idx, const Node& n, vf::Rng& r, const char* origin)
     }
   }
   copy_monitor(n, v, r, desc.substr(0, 900));
+  assign_monitor(n, v, r, desc.substr(0, 600));
   if (idx < 3 || (idx % 977) == 0) C->sample(fmt("opts 0..63 x {default,strict-if-standard} on %s", desc.substr(0, 300).c_str()), 8);
 }
 
